@@ -365,6 +365,26 @@ PLANS["C03"]["drive"] = PLANS["C03"]["drive"] + [dict(name="peg", menu=MENU_PEG,
 # a half-configured hub: fresh instance, dispatcher wired (to a contract that accepts everything), no registry, no tokens
 HALF_PREFIX = [{"k": "instantiate", "c": "hub", "sender": "owner2", "epoch": 2, "unbonding": 5, "fee": [0, 0, 0], "thr": [1, 0, 0]},
                ex("owner2", "hub", {"k": "update_config", "dispatcher": "sink", "registry": "", "bsei": "", "stsei": "", "airdrop": "", "rewards": "", "updater": ""})]
+# legacy (pre-migration) wait-list entries next to new requests, pause / migrate / unpause cycles
+MENU_LEGACY = {"items": {"set_legacy": 4, "unbond_b": 5, "unbond_st": 3, "bond": 3, "bond_st": 2, "pause": 7, "migrate": 3, "advance": 2, "withdraw": 1},
+               "amax": 30, "dts": [1, 3, 5], "probes": ["withdraw"], "probe_every": 8}
+PLANS["C11"]["drive"] = PLANS["C11"]["drive"] + [dict(name="legacy", menu=MENU_LEGACY, runs=(60, 1500), len=30, consts=dict(MaxBatch=8))]
+
+# staged deployments: a fresh hub on which exactly one of the two tokens (or only the registry, or only the reward contract) is registered so far
+def _inst(o):
+    return {"k": "instantiate", "c": "hub", "sender": o, "epoch": 2, "unbonding": 5, "fee": [0, 0, 0], "thr": [1, 0, 0]}
+
+
+def _cfg(o, **kw):
+    m = {"k": "update_config", "dispatcher": "", "registry": "", "bsei": "", "stsei": "", "airdrop": "", "rewards": "", "updater": ""}
+    m.update(kw)
+    return ex(o, "hub", m)
+
+
+STAGED_PREFIXES = [[_inst("owner2"), _cfg("owner2", bsei="bsei")], [_inst("owner2"), _cfg("owner2", stsei="stsei")],
+                   [_inst("owner2"), _cfg("owner2", registry="registry", rewards="reward")], [_inst("owner2"), _cfg("owner2", bsei="usr1", dispatcher="dispatcher")]]
+for _p in ("C10", "C20"):
+    PLANS[_p]["drive"] = PLANS[_p]["drive"] + [dict(name="auth-staged", menu=menu(MENU_AUTH, prefixes=STAGED_PREFIXES, items={"owner_cfg": 14}), runs=(8, 160), len=14, consts=dict(MaxBatch=6, UserFunds=1000))]
 for _p in ("C10", "C11", "C20"):
     PLANS[_p]["drive"] = PLANS[_p]["drive"] + [dict(name="auth-half", menu=dict(MENU_AUTH, prefix=HALF_PREFIX), runs=(6, 150), len=18, consts=dict(MaxBatch=6, UserFunds=1000))]
 
